@@ -304,78 +304,109 @@ def enum_count(rows, n):
 
 
 def family_exact_py(rows, n):
-    if n == 0:
+    """The syntactic criterion of coq/SemiNaive (pos_ok, proved equivalent to the 2^n enumeration): every sub-rule
+    mentions each id once and has a New atom, any two sub-rules conflict (New against Old at some atom), and the
+    volumes 2^(#All) add up to 2^n - 1. Used only to choose how identical atoms are treated and to cross-check."""
+    if n == 0 or not rows:
         return False
+    pos = []
     for r in rows:
         if sorted(i for i, _ in r) != list(range(n)):
             return False
-    if n > 14:
-        return True
-    cnt = enum_count(rows, n)
-    return all(c == (1 if any(lab) else 0) for lab, c in cnt.items())
+        d = dict(r)
+        pos.append([d[i] for i in range(n)])
+    if any(0 not in r for r in pos):
+        return False
+    for x in range(len(pos)):
+        for y in range(x + 1, len(pos)):
+            if not any((a, b) in ((0, 1), (1, 0)) for a, b in zip(pos[x], pos[y])):
+                return False
+    return sum(2 ** sum(1 for a in r if a == 2) for r in pos) == 2 ** n - 1
 
 
-def build_family(fam):
-    """Align atoms across sub-rules. Adds to fam: atoms (id -> (rel,args)), rows (per sub-rule list of (id, age
-    code) in binding order), problems (list), duplicates (bool), reordered (number of sub-rules whose binding
-    order differs from the id order)."""
+AGE_RANK = {2: 0, 0: 1, 1: 2}      # all < new < old: the order of ages along the positions of a to_semi_naive sub-rule
+MEET = {frozenset([0]): 0, frozenset([1]): 1, frozenset([2]): 2, frozenset([0, 2]): 0, frozenset([1, 2]): 1}
+
+
+def align(fam, age_of):
+    """Number the premise atoms of every sub-rule of a family. age_of(sub-rule, position) -> age code or None.
+    -> dict(atoms, rows, collapsed, dropped) or None when a sub-rule has other atoms / an unknown age.
+
+    Distinct atoms get the id of their position in sub-rule 0. k identical copies of an atom share k ids; inside a
+    sub-rule the copies are numbered in the order all < new < old of their ages (the order in which ages occur along
+    the positions of a sub-rule printed by to_semi_naive, so this recovers the positional identity).
+    If the family is not exact under that numbering, the copies are COLLAPSED instead: identical atoms match the same
+    tuple, so a sub-rule's requirement on that tuple is the conjunction of the ages of the copies (new+all = new,
+    old+all = old, new+old = unsatisfiable: the sub-rule enumerates nothing and is dropped); the family is then a
+    family over the distinct atoms, which is what the property quantifies over."""
     subs = fam["subrules"]
-    problems = []
-    first = subs[0]
-    atoms = [atom_key(a) for a in first["premise"]]
+    atoms = [atom_key(a) for a in subs[0]["premise"]]
     ids_of = {}
     for i, a in enumerate(atoms):
         ids_of.setdefault(a, []).append(i)
-    dup = any(len(v) > 1 for v in ids_of.values())
-    var0 = sorted({v for a in atoms for v in a[1]})
-    concl0 = first["conclusion"]
     rows = []
     for sr in subs:
         these = [atom_key(a) for a in sr["premise"]]
         if sorted(these) != sorted(atoms):
+            return None
+        ages = [age_of(sr, k) for k in range(len(these))]
+        if any(a is None for a in ages):
+            return None
+        ids = [None] * len(these)
+        for a, group in ids_of.items():
+            occ = [k for k in range(len(these)) if these[k] == a]
+            occ.sort(key=lambda k: (AGE_RANK[ages[k]], k))
+            for k, i in zip(occ, group):
+                ids[k] = i
+        rows.append([(ids[k], ages[k]) for k in range(len(these))])
+    dup = any(len(v) > 1 for v in ids_of.values())
+    res = {"atoms": atoms, "rows": rows, "collapsed": False, "dropped": []}
+    if dup and fam["kind"] == "exact" and not family_exact_py(rows, len(atoms)):
+        distinct = list(ids_of)                      # in order of first occurrence
+        did = {a: i for i, a in enumerate(distinct)}
+        crow, dropped = [], []
+        for sr, row in zip(subs, rows):
+            req, order = {}, []
+            for (i, age) in row:
+                d = did[atoms[i]]
+                if d not in req:
+                    order.append(d)
+                req.setdefault(d, set()).add(age)
+            if any(frozenset(v) not in MEET for v in req.values()):
+                dropped.append(sr["name"])
+                continue
+            crow.append([(d, MEET[frozenset(req[d])]) for d in order])
+        res = {"atoms": distinct, "rows": crow, "collapsed": True, "dropped": dropped}
+    return res
+
+
+def build_family(fam):
+    """Check uniformity of a family and align its atoms (comment ages). Adds to fam: atoms, rows (per kept sub-rule the
+    list of (atom id, age code) in binding order), collapsed, dropped, problems, duplicates, reordered (number of
+    sub-rules whose binding order differs from the id order)."""
+    subs = fam["subrules"]
+    problems = []
+    first = subs[0]
+    atoms = [atom_key(a) for a in first["premise"]]
+    var0 = sorted({v for a in atoms for v in a[1]})
+    concl0 = first["conclusion"]
+    for sr in subs:
+        these = [atom_key(a) for a in sr["premise"]]
+        if sorted(these) != sorted(atoms):
             problems.append("sub-rule %s has atoms %s, sub-rule %s has %s" % (sr["name"], sorted(these), first["name"], sorted(atoms)))
-            rows.append(None)
             continue
         if sorted({v for a in these for v in a[1]}) != var0:
             problems.append("sub-rule %s binds different variables" % sr["name"])
         if sr["conclusion"] != concl0:
             problems.append("sub-rule %s has conclusions %s, sub-rule %s has %s" % (sr["name"], sr["conclusion"], first["name"], concl0))
-        used = {}
-        row = []
-        for a in sr["premise"]:
-            k = used.get(atom_key(a), 0)
-            used[atom_key(a)] = k + 1
-            row.append((ids_of[atom_key(a)][k], AGE_CODE[a[2]]))
-        rows.append(row)
-    fam["atoms"] = atoms
-    fam["duplicates"] = dup
     fam["problems"] = problems
-    if any(r is None for r in rows):
-        fam["rows"] = None
+    fam["duplicates"] = len(set(atoms)) != len(atoms)
+    al = align(fam, lambda sr, k: AGE_CODE[sr["premise"][k][2]])
+    if al is None:
+        fam.update({"atoms": atoms, "rows": None, "collapsed": False, "dropped": []})
         return fam
-    # identical atoms inside one premise are interchangeable: pick, per sub-rule, the numbering of the copies
-    # under which the family is exact if there is one (small search, only for premises with duplicates)
-    if dup and fam["kind"] == "exact" and len(atoms) <= 10 and not family_exact_py(rows, len(atoms)):
-        groups = [v for v in ids_of.values() if len(v) > 1]
-        options = []
-        for row in rows:
-            alts = []
-            for perms in itertools.product(*[list(itertools.permutations(g)) for g in groups]):
-                ren = {}
-                for g, p in zip(groups, perms):
-                    ren.update(dict(zip(g, p)))
-                alts.append([(ren.get(i, i), a) for (i, a) in row])
-            options.append(alts)
-        total = 1
-        for o in options:
-            total *= len(o)
-        if total <= 20000:
-            for cand in itertools.product(*options):
-                if family_exact_py(list(cand), len(atoms)):
-                    rows = [list(r) for r in cand]
-                    break
-    fam["rows"] = rows
-    fam["reordered"] = sum(1 for r in rows if [i for i, _ in r] != sorted(i for i, _ in r))
+    fam.update(al)
+    fam["reordered"] = sum(1 for r in al["rows"] if [i for i, _ in r] != sorted(i for i, _ in r))
     return fam
 
 
@@ -384,7 +415,10 @@ def coq_family(rows):
 
 
 def failing_labelling(rows, n, sym=False):
-    """First labelling whose enumeration count is wrong: (labelling, count, expected)."""
+    """First labelling whose enumeration count is wrong: (labelling, count, expected); None if there is none (or n
+    is too large to enumerate)."""
+    if n > 16 or any(i >= n for r in rows for i, _ in r):
+        return None
     cnt = enum_count(rows, n)
     for lab in sorted(cnt):
         c = cnt[lab]
